@@ -7,5 +7,6 @@ CONSTANTS
   Proto = "iter_from_min"
   RequireLastLeaf = TRUE
   MaxSteps = 4
+  EmitAt = 5
 VIEW view
 INVARIANTS TypeOK AccIsFromScratch
